@@ -298,9 +298,11 @@ pub fn run(ctx: &mut Ctx, _name: &str) {
     }
     // expansion budget: one loop asking for more than MAX_EXPANDED_LINES at once (rejected without work) …
     ctx.directive("new witness-budget");
-    one_case(ctx, &format!("for a in 0..10000:\n{}", "    x{a}\n".repeat(101)), Duration::from_secs(60));
-    // … and nested loops whose product is huge (rejected after at most MAX_EXPANDED_LINES lines; ~1e6 lines of work)
-    if ctx.thorough {
+    let big = format!("for a in 0..10000:\n{}", "    x{a}\n".repeat(101));
+    one_case(ctx, &big, Duration::from_secs(60));
+    // … and nested loops whose product is huge (rejected after at most MAX_EXPANDED_LINES lines; ~1e6 lines of work).
+    // Only attempted when the budget exists at all (without it this input exhausts memory).
+    if ctx.thorough && expand_result(&big) == "E:budget" {
         ctx.directive("new witness-nested-budget");
         one_case(ctx, "for a in 0..10000:\n for b in 0..10000:\n  for c in 0..10000:\n   x{a}{b}{c}\n", Duration::from_secs(300));
     }
